@@ -764,3 +764,35 @@ pub fn mass_delete_strategy() -> BoxedStrategy<Case> {
         })
         .boxed()
 }
+
+/// C12/C13: a tight memory budget and a handful of keys: growing updates (copying and zero-copy
+/// API) that carry explicit future timestamps are refused with OutOfMemory, followed by
+/// automatic calls on the same keys (a refused call's timestamp must not reach the clock).
+pub fn budget_explicit_strategy() -> BoxedStrategy<Case> {
+    ((any::<bool>(), any::<bool>(), any::<bool>()), 3usize..7, 2500usize..9000, 0u64..1_000_000_000_000u64)
+        .prop_flat_map(move |((persistent, ttl, plain_io), nkeys, budget, t0_offset)| {
+            let cfg = Config { persistent, version: 3, cache: false, ttl, dev: DevSize::Normal, max_memory: Some(budget), plain_io, legacy_plain_meta: false, visible_cpus: 2 };
+            let keys: Vec<Vec<u8>> = (0..nkeys).map(|i| format!("q{i}").into_bytes()).collect();
+            let n = nkeys;
+            let future = prop_oneof![3 => Just(TsSpec::RelNow(1_000_000_000_000_000)), 2 => Just(TsSpec::RelCur(1000)), 1 => Just(TsSpec::RelNow(1)), 1 => Just(TsSpec::RelCur(1))];
+            let grow = (400u16..4000).prop_map(|l| ValSpec { len: LenClass::Small(l), kind: ValKind::Stamp });
+            let small = (1u16..200).prop_map(|l| ValSpec { len: LenClass::Small(l), kind: ValKind::Stamp });
+            let op = prop_oneof![
+                6 => (0..n, grow, future, any::<bool>()).prop_map(move |(j, v, ts, bytes)| Op::Insert { k: key_at(j, n), v, ts, bytes }),
+                4 => (0..n, small.clone(), any::<bool>()).prop_map(move |(j, v, bytes)| Op::Insert { k: key_at(j, n), v, ts: TsSpec::Auto, bytes }),
+                1 => (0..n).prop_map(move |j| Op::Delete { k: key_at(j, n), ts: TsSpec::Auto }),
+                1 => (0..n, small.clone()).prop_map(move |(j, v)| Op::InsertTtl { k: key_at(j, n), v, ttl: 2, ts: TsSpec::Auto, bytes: false }),
+                1 => (0..n).prop_map(move |j| Op::Incr { k: key_at(j, n), delta: 1, ts: TsSpec::Auto, ttl: None }),
+                1 => (0..n).prop_map(move |j| Op::GetTtl { k: key_at(j, n) }),
+                1 => Just(Op::Flush),
+            ];
+            (Just(cfg), Just(keys), Just(t0_offset), proptest::collection::vec(op, 10..40))
+        })
+        .prop_map(|(cfg, keys, t0_offset, tail)| {
+            let n = keys.len();
+            let mut ops: Vec<Op> = (0..n).map(|j| Op::Insert { k: key_at(j, n), v: ValSpec { len: LenClass::Small(120), kind: ValKind::Stamp }, ts: TsSpec::Auto, bytes: false }).collect();
+            ops.extend(tail);
+            Case { cfg, keys, t0_offset, ops }
+        })
+        .boxed()
+}
